@@ -2,10 +2,32 @@
    a list of those) is read back by each of the three item getters of decoding_json.go as the item's normal form,
    given that the decoder [li] reads back the objects nested one level down (the induction hypothesis of the
    object-level theorem). *)
-From AP.Model Require Import Prelude Bytes Vocab Pred Url IriEq Nlv Json Text Equal Coll Dispatch Layout JsonTables JsonLeaf
+From AP.Model Require Import Prelude Bytes Vocab Pred Url UrlU Utf8 IriEq Nlv Json Text Equal Coll Dispatch Layout JsonTables JsonLeaf
      JsonEnc JsonTree JsonCheck JsonDec JsonNorm.
 From AP.Proofs Require Import NlvP TextP C01StrP C01TreeP C01ParseP AsIriP.
 Local Open Scope nat_scope.
+
+(* a text without quote, backslash and control byte holds no backslash-quote pair *)
+Lemma no_special_no_bsq s : fj_has_special s = false -> no_bsq s = true.
+Proof.
+  unfold fj_has_special. induction s as [|x t IH]; [reflexivity|]. cbn [existsb]. rewrite orb_false_iff. intros [Hx Ht].
+  destruct t as [|y r]; [reflexivity|].
+  change (no_bsq (x :: y :: r)) with (negb (Byte.eqb x bslash && Byte.eqb y dquote) && no_bsq (y :: r)).
+  rewrite (IH Ht), andb_true_r. rewrite !orb_false_iff in Hx. destruct Hx as [[_ Hx] _].
+  change bslash with x5c. rewrite Hx. reflexivity.
+Qed.
+
+(* the class of IRIs contains the plain grammar of Model/Url.v (what the theorem was stated for before) *)
+Lemma iri_ok_of_plain s : iri_ok_plain s = true -> iri_ok s = true.
+Proof.
+  unfold iri_ok_plain, iri_ok. intros H. rewrite !andb_true_iff in H. destruct H as [[Hu Hs] Hn].
+  destruct (url_classify s) as [u| |] eqn:Eu; try discriminate.
+  pose proof (str_ok_safe s Hs) as Hso. unfold str_ok in Hso. apply andb_true_iff in Hso. destruct Hso as [Hv Hq].
+  assert (Hdec : fj_unescape (escape_quote s) = s) by (apply escape_quote_decodes; unfold str_ok; rewrite Hv, Hq; reflexivity).
+  pose proof (as_iri_of_plain (escape_quote s) u) as K. rewrite Hdec in K. specialize (K Eu).
+  destruct (as_iri_accepted _ _ K) as [_ [Hsp [u' [sch [up [rh [rp [qo [fo [Hc _]]]]]]]]]].
+  rewrite Hv, Hsp, Hc, Hn. reflexivity.
+Qed.
 
 Section Items.
   Variable jw_tables : list (bytes * bool * list wstmt).
@@ -23,17 +45,17 @@ Section Items.
     tr f (IObj p k fs) = Some o -> exists kvs, o = Some (FObj kvs).
   Hypothesis HLo : forall f p k fs kvs, wf (IObj p k fs) = true -> ddepth (IObj p k fs) <= g ->
     tr f (IObj p k fs) = Some (Some (FObj kvs)) -> li (FObj kvs) = Some (nrm (IObj p k fs)).
-  Hypothesis HLs : forall raw u, 1 <= g -> url_classify (fj_unescape raw) = UValid u ->
-    li (Text.FStr raw) = Some (IIri false (fj_unescape raw)).
+  Hypothesis HLs : forall raw s, 1 <= g -> as_iri (Text.FStr raw) = Some (Some s) -> li (Text.FStr raw) = Some (IIri false s).
 
   (* ---- IRIs ---- *)
   Lemma iri_ok_facts s : iri_ok s = true ->
-    (exists u, url_classify s = UValid u) /\ fj_unescape (escape_quote s) = s /\ s <> [] /\ forall p, is_nil (IIri p s) = false.
+    as_iri (Text.FStr (escape_quote s)) = Some (Some s) /\ fj_unescape (escape_quote s) = s /\ s <> [] /\ forall p, is_nil (IIri p s) = false.
   Proof.
-    unfold iri_ok. rewrite !andb_true_iff, negb_true_iff. intros [[Hu Hs] Hn].
-    split; [destruct (url_classify s) as [u| |]; try discriminate; exists u; reflexivity|].
-    split; [apply escape_quote_decodes, str_ok_safe, Hs|].
-    split; [intros ->; discriminate|]. intros p. exact Hn.
+    unfold iri_ok. rewrite !andb_true_iff, !negb_true_iff. intros [[[Hv Hsp] Hu] Hn].
+    assert (Hdec : fj_unescape (escape_quote s) = s).
+    { apply escape_quote_decodes. unfold str_ok. rewrite Hv. exact (no_special_no_bsq s Hsp). }
+    split; [|split; [exact Hdec|split; [intros ->; discriminate|intros p; exact Hn]]].
+    unfold as_iri. rewrite Hdec, Hsp. destruct (url_classify_u s); try discriminate. reflexivity.
   Qed.
 
   Lemma tree_iri f p s o : iri_ok s = true -> tr f (IIri p s) = Some o -> o = Some (Text.FStr (escape_quote s)).
@@ -58,10 +80,9 @@ Section Items.
   Proof.
     intros [He [Hw Hd]] H. destruct y as [|k|p s|p k fs|p l|p l]; try discriminate.
     - cbn [wf_item] in Hw. rewrite (tree_iri f p s o Hw H). eexists. split; [reflexivity|].
-      destruct (iri_ok_facts s Hw) as [[u Hu] [Hdec _]]. split; [|split; [discriminate|reflexivity]].
-      cbn [norm_item]. rewrite <- Hdec at 2. apply (HLs _ u).
-      + pose proof (ddepth_ge1 (IIri p s) eq_refl). lia.
-      + rewrite Hdec. exact Hu.
+      destruct (iri_ok_facts s Hw) as [Hu [Hdec _]]. split; [|split; [discriminate|reflexivity]].
+      cbn [norm_item]. apply HLs; [|exact Hu].
+      pose proof (ddepth_ge1 (IIri p s) eq_refl). lia.
     - destruct (HEo f p k fs o Hw Hd H) as [kvs ->]. eexists. split; [reflexivity|].
       split; [exact (HLo f p k fs kvs Hw Hd H)|]. split; [cbn [norm_item]; discriminate|exists kvs; reflexivity].
   Qed.
@@ -198,10 +219,7 @@ Section Items.
 
   (* ---- the three getters on the tree of an item ---- *)
   Lemma as_iri_valid s : iri_ok s = true -> as_iri (Text.FStr (escape_quote s)) = Some (Some s).
-  Proof.
-    intros H. destruct (iri_ok_facts s H) as [[u Hu] [Hdec _]].
-    pose proof (as_iri_of_plain (escape_quote s) u) as K. rewrite Hdec in K. exact (K Hu).   (* the model of asIRI extends the plain grammar *)
-  Qed.
+  Proof. intros H. exact (proj1 (iri_ok_facts s H)). Qed.
 
   (* JSONGetItem *)
   Lemma get_item_read f i tv val prop : item_tree f i tv -> jget val prop = Some tv ->
@@ -301,5 +319,33 @@ Section Items.
     - apply (tree_ok_mono (2 * ddepth i + 1)); [exact (elem_tree_ok f i tv Hok Hy)|lia].
     - apply (tree_ok_mono (2 * ddepth x + 1)); [exact (elem_tree_ok f x tv Hok Hx)|]. cbn [ddepth]. lia.
     - apply (forall2_trees_ok f (x :: y :: l) ts Hok Hf). intros z Hz. exact (ddepth_items_in p (x :: y :: l) z Hz).
+  Qed.
+
+  (* ... and at least as deep as the value nests *)
+  Hypothesis HDo : forall f p k fs kvs, wf (IObj p k fs) = true -> ddepth (IObj p k fs) <= g ->
+    tr f (IObj p k fs) = Some (Some (FObj kvs)) -> ddepth (IObj p k fs) <= S (fdepth (FObj kvs)).
+
+  Lemma elem_tree_deep f y tv : elem_ok y -> tr f y = Some (Some tv) -> ddepth y <= S (fdepth tv).
+  Proof.
+    intros Hok Hy. destruct (elem_tree f y _ Hok Hy) as [tv2 [E [_ [_ Hs]]]]. inversion E; subst tv2.
+    destruct y as [|k|p s|p k fs|p l|p l]; try (destruct Hok as [C _]; discriminate).
+    - cbn [ddepth]. lia.
+    - destruct Hs as [kvs ->]. destruct Hok as [_ [Hw Hd]]. exact (HDo f p k fs kvs Hw Hd Hy).
+  Qed.
+
+  Lemma forall2_trees_deep f l ts : elems_ok l -> Forall2 (fun y t => tr f y = Some (Some t)) l ts ->
+    (fix go (l : list item) : nat := match l with [] => O | x :: r => Nat.max (ddepth x) (go r) end) l <= fdepth (FArr ts).
+  Proof.
+    intros Hok Hf. cbn [fdepth]. induction Hf as [|y t l ts Hy Hf IH]; [lia|].
+    pose proof (elem_tree_deep f y t (Hok y (or_introl eq_refl)) Hy) as H1.
+    specialize (IH (fun z Hz => Hok z (or_intror Hz))). lia.
+  Qed.
+
+  Lemma item_tree_deep f i tv : item_tree f i tv -> ddepth i <= S (fdepth tv).
+  Proof.
+    intros Ht. inversion Ht as [y tv' Hok Hy|p x tv' Hok Hx|p x y l ts Hok Hd Hf]; subst.
+    - exact (elem_tree_deep f i tv Hok Hy).
+    - pose proof (elem_tree_deep f x tv Hok Hx). cbn [ddepth]. lia.
+    - apply le_S. exact (forall2_trees_deep f (x :: y :: l) ts Hok Hf).
   Qed.
 End Items.
